@@ -356,7 +356,13 @@ def run_check(modname: str, tier: str, replay_path: str | None = None) -> int:
 		else:
 			mpctx = multiprocessing.get_context('fork')
 			with mpctx.Pool(nshards) as pool:
-				results = pool.map(_worker, args, chunksize=1)
+				limit = float(budget.get('seconds', 60)) * 4 + 300
+				try:
+					results = pool.map_async(_worker, args, chunksize=1).get(timeout=limit)
+				except multiprocessing.TimeoutError:
+					pool.terminate()
+					print(f'HARNESS-ERROR: a shard did not finish within {limit:.0f}s (budget {budget.get("seconds")}s); inconclusive, not a verdict')
+					return EXIT_HARNESS
 		errs = [r['harness_error'] for r in results if 'harness_error' in r]
 		if errs:
 			print('HARNESS-ERROR in shard:\n' + errs[0])
